@@ -1,4 +1,4 @@
-"""C03: integer + - * negation ++/-- are lane-wise two's-complement."""
+"""C03: mask objects behave as vectors of booleans (construction, logic, count/any/all/none, set_bits/keep/clear)."""
 import common
 import runner
 
@@ -23,8 +23,7 @@ def run(tier, a=None):
     cfgs = select_cfgs(tier, a)
     runner.run_families(res, cfgs, ["mask"], type_filter(a))
     res.trusted = ["clang 14 front end and -O2 pipeline preserve the meaning of UB-free executions",
-                   "LLVM LangRef: add/sub/mul without nsw/nuw are arithmetic modulo 2^n per lane"]
-    return common.finish(res, explanation="every integer vector type x configuration x "
-                         "{+,-,*,unary -,++,--, compound forms}: optimised IR summarised into a "
-                         "closed form and compared with add/sub/mul modulo 2^bits on the same lane",
+                   "LLVM LangRef semantics of the IR instructions; Intel SDM semantics of the x86 intrinsics as modelled in spec/isa.py",
+                   "the term normaliser, the exact IEEE evaluator (lib/fpeval.py) and the abstract interpreter (lib/absint.py, self-tested against the concrete evaluator)"]
+    return common.finish(res, explanation='every mask type x configuration x {bool / array construction, &, |, ^, !, compound forms, ==, !=, count, any, all, none, extract / insert<N>, set_bits}: optimised IR summarised into a closed form over one boolean per lane and compared with the lane-wise boolean definition; the representation invariant (k-mask bits beyond the lane count are zero, lane masks are uniform) is part of the compared form',
                          write_floor=getattr(a, "write_floor", False))
